@@ -476,6 +476,10 @@ func cmdCheck(args []string) int {
 		if shards <= 0 {
 			shards = 1
 		}
+		if *tier == "thorough" {
+			// more jobs than cores: the job queue then balances uneven partitions
+			shards *= 4
+		}
 		if shards > len(names) {
 			shards = len(names)
 		}
